@@ -49,6 +49,10 @@ chk("C08", "Coq theorems on the reading side: the raw-number scanner accepts exa
     "PARTIAL: ryu and itoa are third-party; their output is checked per case, not proved (the thorough tier sweeps all 2^32 f32 values, implementation only).",
     "Coq proof (number grammar both directions) + per-value validation of the printer against the exact decimal specification")
 
+chk("C05", "Coq theorems: format_string's 32-byte block algorithm equals the per-byte specification escaper for every string; NEED_ESCAPED and QUOTE_TAB regenerated from the source mark and expand exactly quote, backslash and the C0 controls; the PrettyFormatter prints exactly the prescribed layout; compact output of any tree parses back to it. Tie: format_string through the hook (block-edge sweep, page-boundary placement with an inaccessible next page, canary behind the reserved window) and generated values of the whole serde data model through 6 writers and failing sinks; the output must be valid UTF-8, well-formed, denote the value (Model/SerVal.v: expect/matches) and be exactly the canonical compact/pretty text; non-scalar map keys refused; failing sinks deliver a prefix and report the error.",
+    "ryu/itoa are third-party: printed numbers are checked to denote exactly the value written. The Compound/State comma machine is tied by the correspondence to the recursive printer the theorems are about.",
+    "Coq proof (block-scan instance, table sweeps, formatter state machine) + model-vs-code correspondence")
+
 NA = {}
 ALL = ["C%02d" % i for i in range(1, 21)]
 for p in ALL:
